@@ -60,6 +60,11 @@ def cases(draw, max_nodes):
             g.add({"k": "call", "args": [], "kwargs": [], "deps": [], "scope": [], "stored": False,
                    "beh": {"t": "ok"}, "side": None}, hashable=True)
     spec = {"nodes": g.nodes, "output": common.all_refs_output({"nodes": g.nodes})}
+    if draw(st.integers(0, 7)) == 0:
+        # the smallest run there is: one call that is itself the output (a one-node physical plan)
+        spec = {"nodes": [{"k": "call", "args": [], "kwargs": [], "deps": [], "scope": [], "stored": False,
+                           "beh": {"t": "ok"}, "side": None}], "output": {"n": 0}}
+        use_reg = False
     cfg = {"workers": draw(st.sampled_from([1, 2, 2, 3, 4, 5])), "scheduler": draw(st.sampled_from(["default", "random", "random", None])),
            "rseed": draw(st.integers(0, 999))}
     if not use_reg and draw(st.sampled_from([True, False, False])):
